@@ -26,6 +26,20 @@ pub struct Case {
 
 const GEOM: Geometry = Geometry { tables: 8, buckets: 1024 };
 
+/// Seeds: mostly arbitrary, but the values an implementation is tempted to treat specially come up
+/// in every run (0 as "no seed given", small numbers, single bits, the maximum).
+pub fn seed_strategy() -> impl Strategy<Value = u64> {
+    prop_oneof![
+        6 => any::<u64>(),
+        2 => Just(0u64),
+        1 => Just(1u64),
+        1 => Just(u64::MAX),
+        1 => 0u64..16,
+        1 => (0u32..64).prop_map(|k| 1u64 << k),
+        1 => any::<u32>().prop_map(|x| x as u64),
+    ]
+}
+
 /// The complete event sequence of a single-worker search on a fresh small memory.
 /// The hasher of the fresh memory is derived from the seed, like the engine does.
 pub fn transcript_sync(pos: &Pos, seed: u64, depth: u8) -> Result<Vec<String>, String> {
@@ -61,7 +75,7 @@ impl Prop for SameSeedSync {
     fn strategy(&self, _: &Ctx) -> BoxedStrategy<Case> {
         (
             sparse_source(),
-            any::<u64>(),
+            seed_strategy(),
             1u8..=6,
             proptest::option::weighted(0.5, (sparse_source(), any::<u64>())),
             proptest::bool::weighted(0.03),
@@ -193,7 +207,7 @@ impl Prop for SameSeedPublic {
         30
     }
     fn strategy(&self, _: &Ctx) -> BoxedStrategy<PublicCase> {
-        (sparse_source(), any::<u64>(), 1u8..=3)
+        (sparse_source(), seed_strategy(), 1u8..=3)
             .prop_map(|(source, seed, depth)| PublicCase { source, seed, depth })
             .boxed()
     }
@@ -279,7 +293,7 @@ impl Prop for SameSeedCli {
         20
     }
     fn strategy(&self, _: &Ctx) -> BoxedStrategy<PublicCase> {
-        (sparse_source(), any::<u64>(), 1u8..=3)
+        (sparse_source(), seed_strategy(), 1u8..=3)
             .prop_map(|(source, seed, depth)| PublicCase { source, seed, depth })
             .boxed()
     }
